@@ -12,6 +12,7 @@
 #include "CppUTest/MemoryLeakWarningPlugin.h"
 #include "CppUTest/TestMemoryAllocator.h"
 #include "CppUTest/TestRegistry.h"
+#include "CppUTest/SimpleMutex.h"
 #include "CppUTest/TestOutput.h"
 #include "CppUTest/TestResult.h"
 #include "CppUTest/JUnitTestOutput.h"
@@ -35,8 +36,8 @@ using namespace vf;
 
 enum Kind { X_NONE = 0, X_ALLOC /* a slot, b form (0 new,1 new[],2 new nothrow,3 new[] nothrow,4 malloc), c size */, X_FREE /* a slot */, X_REALLOC /* a slot, c size */,
             X_SEND /* a slot, b target thread */, X_RECV, X_YIELD,
-            X_MISUSE /* a kind: 0 overrun a guard byte then release, 1 release a foreign pointer, 2 release through the wrong family, 3-5 the same three through realloc, 6 the platform has no memory, 7 a plain failing check; b form; c size */, X_COUNT };
-static const char* const kNames[X_COUNT] = { "none", "alloc", "free", "realloc", "send", "recv", "yield", "misuse" };
+            X_USERLOCK /* the thread takes and releases a SimpleMutex of the program under test (not the detector's) */, X_MISUSE /* a kind: 0 overrun a guard byte then release, 1 release a foreign pointer, 2 release through the wrong family, 3-5 the same three through realloc, 6 the platform has no memory, 7 a plain failing check; b form; c size */, X_COUNT };
+static const char* const kNames[X_COUNT] = { "none", "alloc", "free", "realloc", "send", "recv", "yield", "userlock", "misuse" };
 static const char* kindName(int k) { return k >= 0 && k < X_COUNT ? kNames[k] : "none"; }
 static int kindFromName(const char* s) { for (int i = 0; i < X_COUNT; i++) if (!strcmp(s, kNames[i])) return i; return X_NONE; }
 
@@ -333,6 +334,7 @@ static void* acquire(int form, size_t size, int line) {
     default: return cpputest_malloc_location(size, "thr.c", (size_t)line);
     }
 }
+static SimpleMutex* g_userMutex = 0;
 static void runScript(int me) {
     Thr& T = S.t[me]; const Group& G = *T.script;
     for (size_t i = 0; i < G.ops.size(); i++) {
@@ -360,6 +362,7 @@ static void runScript(int me) {
         case X_SEND: if (H.p) { int to = (int)(o.b % S.n); if (to == me || !S.t[to].script) break; S.t[to].mailbox.push_back(H); vcJoin(S.t[to].mailVc, T.vc); T.vc[me]++; H.p = 0; probe("block_handed_to_other_thread"); } break;
         case X_RECV: { vcJoin(T.vc, T.mailVc); Vec<Held> mb; mb.swap(T.mailbox); for (size_t k = 0; k < mb.size(); k++) release(mb[k]); break; }
         case X_YIELD: schedPoint(); break;
+        case X_USERLOCK: { ScopedMutexLock own(g_userMutex); probe("second_mutex_taken"); schedPoint(); break; }      // another lock of the same platform layer, held across a scheduling point
         default: break;
         }
     }
@@ -430,6 +433,7 @@ struct Engine : public vf::Engine {
         arenaInit();
         realMalloc = PlatformSpecificMalloc; realRealloc = PlatformSpecificRealloc; realFree = PlatformSpecificFree; realMemset = PlatformSpecificMemset;
         g_captureMutexes = true;      // from here on every pthread mutex the library initialises (the detector's) is a simulated one
+        g_userMutex = new (::malloc(sizeof(SimpleMutex))) SimpleMutex();
         PlatformSpecificMalloc = heapMalloc; PlatformSpecificRealloc = heapRealloc; PlatformSpecificFree = heapFree; PlatformSpecificMemset = heapMemset;
         // function-local statics of the framework are initialised once, before any simulated thread exists
         defaultNewAllocator(); defaultNewArrayAllocator(); defaultMallocAllocator(); getCurrentNewAllocator(); getCurrentNewArrayAllocator(); getCurrentMallocAllocator(); NullUnknownAllocator::defaultAllocator();
@@ -470,6 +474,7 @@ struct Engine : public vf::Engine {
                 else if (x < 86) { o.kind = X_REALLOC; o.a = (int64_t)w.below(N_SLOTS); o.c = w.small(1, 200); }
                 else if (x < 92 && !misuse) { o.kind = X_SEND; o.a = (int64_t)w.below(N_SLOTS); o.b = (int64_t)w.below(16); }
                 else if (x < 97 && !misuse) o.kind = X_RECV;
+                else if (x < 99 && w.chance(1, 2)) o.kind = X_USERLOCK;
                 else o.kind = X_YIELD;
                 G.ops.push_back(o);
             }
